@@ -13,7 +13,7 @@ VARIABLES m, i
 TInit == m = Init0 /\ i = 1
 
 Verdict == [events |-> Len(Rec), behaviours |-> m.behaviours, nviol |-> m.nviol,
-            viol |-> m.viol, hits |-> m.hits]
+            viol |-> m.viol, vcount |-> m.vcount, hits |-> m.hits]
 
 TNext ==
   \/ /\ i <= Len(Rec)
